@@ -3,7 +3,6 @@ package markup
 import (
 	"fmt"
 	"io"
-	"math"
 	"regexp"
 	"slices"
 	"strconv"
@@ -525,7 +524,10 @@ func (lineParser *LineParser) parseValue() (Value, error) {
 				return Value{}, fmt.Errorf("failed to parse fraction: %w", err)
 			}
 			fractionDigits := remaining - lineParser.reader.Len() // leading zeros count: 1.05 is not 1.5
-			f := float64(i) + float64(fraction)*float64(math.Pow10(-fractionDigits))
+			f, err := strconv.ParseFloat(fmt.Sprintf("%d.%0*d", i, fractionDigits, fraction), 64)
+			if err != nil {
+				return Value{}, fmt.Errorf("failed to parse decimal: %w", err)
+			}
 
 			return Value{FloatValue: f, ValueType: ValueTypeFloat}, nil
 		} else {
